@@ -184,6 +184,18 @@ func (m *model) sandwiched(name string) bool {
 
 var alphabet = []string{"a", "b", "c"}
 
+// spell writes a name the way the cases spell it: one-to-one (Name.String prints
+// numeric-convention components as decimal numbers, so that values of different width read alike).
+func spell(n enc.Name) string {
+	c := make([]string, len(n))
+	for i := range n {
+		c[i] = n[i].CanonicalString()
+	}
+	return join(c)
+}
+
+var twins = map[string]string{"50=%01": "50=%00%01", "50=%00%01": "50=%01", "54=%00": "54=%00%00", "54=%00%00": "54=%00", "b": "32=b", "32=b": "b"}
+
 func genName(t *rapid.T, maxDepth int, label string) string {
 	d := rapid.IntRange(0, maxDepth).Draw(t, label+"depth")
 	c := make([]string, d)
@@ -193,8 +205,10 @@ func genName(t *rapid.T, maxDepth int, label string) string {
 		// now and then a typed component, and a pair of names whose bytes can be split in two
 		// ways: /a/32=b and /a%00/8290= (type 8290 = 0x2062: "8-byte type, value" without a
 		// length reads the same for both -- the hash-table FIB keys its entries by name hash)
-		if x := rapid.IntRange(0, 39).Draw(t, label+"odd"); x < 3 {
-			c[i] = []string{"32=b", "a%00", "8290="}[x]
+		// and numeric-convention components whose values differ only in width: segment 1 written
+		// in one and in two bytes are different components that print alike ("seg=1")
+		if x := rapid.IntRange(0, 39).Draw(t, label+"odd"); x < 6 {
+			c[i] = []string{"32=b", "a%00", "8290=", "50=%01", "50=%00%01", "54=%00"}[x]
 		}
 	}
 	return join(c)
@@ -221,6 +235,19 @@ func genCase(t *rapid.T) Case {
 				p := comps(rapid.SampledFrom(touched).Draw(t, label+"chi"))
 				if len(p) < 7 {
 					return join(append(append([]string{}, p...), rapid.SampledFrom(alphabet).Draw(t, label+"cc")))
+				}
+			case 8:
+				// the twin of an existing prefix: one component replaced by one that differs only in
+				// the width of a numeric-convention value or in type / escaping
+				p := append([]string{}, comps(rapid.SampledFrom(touched).Draw(t, label+"twin"))...)
+				if len(p) > 0 {
+					i := rapid.IntRange(0, len(p)-1).Draw(t, label+"twi")
+					if tw, ok := twins[p[i]]; ok {
+						p[i] = tw
+					} else {
+						p[i] = rapid.SampledFrom([]string{"50=%01", "50=%00%01"}).Draw(t, label+"tww")
+					}
+					return join(p)
 				}
 			}
 		}
@@ -372,7 +399,7 @@ func checkTables(impls []impl, m *model, names []string, step int) error {
 		// listings
 		seen := map[string]bool{}
 		for _, e := range im.t.GetAllFIBEntries() {
-			n := e.Name().String()
+			n := spell(e.Name())
 			if seen[n] {
 				return fmt.Errorf("step %d %s FIB listing has %s twice", step, im.name, n)
 			}
@@ -392,7 +419,7 @@ func checkTables(impls []impl, m *model, names []string, step int) error {
 		}
 		seen = map[string]bool{}
 		for _, e := range im.t.GetAllForwardingStrategies() {
-			n := e.Name().String()
+			n := spell(e.Name())
 			if seen[n] {
 				return fmt.Errorf("step %d %s strategy listing has %s twice", step, im.name, n)
 			}
